@@ -101,9 +101,25 @@ structure AnySq (α : Type) where
   z : Nat
   Q : Mat α z z
 
+instance instInhabitedVecUT {n : Nat} : Inhabited (Vec α n) := ⟨Vec.of (fun _ => default)⟩
+instance instInhabitedMatUT {r c : Nat} : Inhabited (Mat α r c) := ⟨Mat.of (fun _ _ => default)⟩
+
+/-- Memoise a mixture (execution only, `GM.evalAll b = b`): means and covariances of all components are computed
+    once — what the C++ object holds after the call — instead of being re-derived on every access through the
+    closures of the previous augmentations. -/
+def GM.evalAll {n : Nat} (b : GM α n k) : GM α n k :=
+  let ms : Array (Vec α n) := Array.ofFn (fun i : Fin k => Vec.eval (b.mean i))
+  let cs : Array (Mat α n n) := Array.ofFn (fun i : Fin k => Mat.eval (b.cov i))
+  { mean := fun i => ms[i.val]!, cov := fun i => cs[i.val]!, weight := b.weight }
+
+omit [Zero α] [Add α] [Sub α] [Mul α] [Div α] [NatCast α] in
+theorem GM.evalAll_eq {n : Nat} (b : GM α n k) : GM.evalAll b = b := by
+  cases b
+  simp [GM.evalAll]
+
 /-- one call `g.augmentWithNoise(Q)` -/
 def AnyGM.augment (s : AnyGM α k) (q : AnySq α) : AnyGM α k :=
-  ⟨s.n + q.z, augmentWithNoise s.g q.Q⟩
+  ⟨s.n + q.z, GM.evalAll (augmentWithNoise s.g q.Q)⟩
 
 /-- a history of calls on one object -/
 def AnyGM.augmentAll (s : AnyGM α k) (qs : List (AnySq α)) : AnyGM α k :=
